@@ -47,6 +47,12 @@ Fixpoint field_index_from (i : nat) (fs : list field) (num : Z) : option nat :=
   end.
 Definition field_index (md : mdesc) (num : Z) : option nat := field_index_from 0 (md_fields md) num.
 
+(* the widest element of a packed record: a packed bool element must be a single byte, any other varint takes at most
+   ten.  protobuf_c counts one element per BYTE of a packed bool record when it sizes the array, so with padded
+   elements the array is allocated larger than the number of elements stored; the value is the same, the allocation
+   is not (Proofs/SpecRefine0.v, lax_packed_bool_counter_example) *)
+Definition elem_width (t : ftype) : nat := match t with TBool => 1%nat | _ => 10%nat end.
+
 Section Step.
 Variable E : env.
 Variable sub : nat -> list Z -> option msg.     (* the reading of a sub-message's bytes *)
@@ -86,7 +92,7 @@ Fixpoint packed_varints (fuel : nat) (t : ftype) (bs : list Z) : option (list sv
       match fuel with
       | O => None
       | S k =>
-          match read_varint_raw 10 bs with
+          match read_varint_raw (elem_width t) bs with
           | Some (v, _, r) =>
               if v <? two64 then
                 match scalar_of t (PVar v), packed_varints k t r with
